@@ -101,4 +101,8 @@ def run(ctx):
         ctx.ob("R18b", "ElementSearch::search", ok,
                "iterates GraphImpl::iter, consults the handler for every element, finishes only on Finish, never expands" if ok else
                "ElementSearch::search changed: iter=%s, no expand=%s, finished-table=%s" % (it_ok, no_expand, tbl), b.where)
+    # "returns those satisfying the conditions and never a removed element": an `ids` condition must distinguish the
+    # node +n from the edge -n that may occupy the same slot later (R15f)
+    from rules import C15
+    C15.ids_condition_rule(ctx)
     return 0
